@@ -229,7 +229,7 @@ def runRepr (j : Json) : Except String Json := do
   let agree := m.text == impl.text && optObjEq m.evalOk impl.evalOk && m.text2 == impl.text2 &&
     optObjEq m.pickled impl.pickled && m.sameEval == impl.sameEval
   -- the domain of the property: objects that can be built, whose scalars are Python expressions
-  let valid := validObj x && fitsObj pyScalar F.fmt unbounded x
+  let valid := validObj x && fitsObj pyScalar F.fmt (unbounded F.lim.plainSeg) x
   -- the hypothesis of the round-trip theorems: nothing exceeds a limit of the `_BBRepr` instance
   let fits := fitsObj pyScalar F.fmt F.lim x
   let holds := !valid || checkRepr x impl
